@@ -852,7 +852,7 @@ def rand_value(tp, rng):
     # any
     if rng.random() < 0.08:
         # composite ids: str() of a tuple is what reaches the key — a 1-tuple is not its member, any length is an id
-        return rng.choice([(1,), ("u1",), (), (1, 2), ("a", 2, 3.5), ((1,), "x"), ("its",), (None, True)])
+        return rng.choice([(1,), ("u1",), (), (1, 2), ("a", 2, 3.5), ((1,), "x"), ("it's",), ('say "hi"', 1), ("a\\b",), ("é", "\x00"), (("x'",), 2.5), (None, True)])
     return rng.choice([None, True, False, 0, 1, -1, 2 ** 70, 0.1, float("nan"), float("inf"), -0.0, "", "u1", "josé",
                        "\x00", "a" * 300, rand_string(rng), rng.randint(0, 10 ** 9), str(rng.randint(0, 10 ** 9)),
                        "user_%d" % rng.randint(0, 10 ** 6)])
